@@ -297,38 +297,105 @@ FindIn(S, ks, j, curname, x, fuel) ==
          IF r # "" THEN r ELSE FindIn(S, ks, j + 1, curname, x, fuel)
 PathName(S, root, x, nm, fuel) == FindPath(S, root, nm, x, fuel)
 
-(* one step of the user's rule on node x; result [S, new, err] *)
-Act(S, root, x, rule, atom, nm, d) ==
+Tmp(n) == "t" \o ToString(n)
+(* one step of the user's rule on node x; result [S, new, err, partial]; a node it makes is called t<ctr> (renamed after
+   its final position at the end, RenameBelow) *)
+Act(S, x, rule, atom, ctr, d) ==
     IF ~Selected(S, x, atom) \/ rule = "keep" THEN [S |-> S, new |-> x, err |-> "", partial |-> FALSE]
     ELSE IF rule = "drop" THEN [S |-> S, new |-> None, err |-> "", partial |-> FALSE]
-    ELSE LET newname == PathName(S, root, x, nm, Fuel(S)) IN
-         IF rule = "bump"
-         THEN LET r == Replace(S, x, [bad |-> FALSE, p |-> [S.obj[x].p EXCEPT !["a"] = (atom + 1) % 3], k |-> S.obj[x].k], newname)
-              IN [S |-> r.S, new |-> IF r.err = "" THEN newname ELSE None, err |-> r.err, partial |-> r.partial]
-         ELSE LET r == Construct(S, newname, [c |-> "LLeaf", p |-> DefaultProps("LLeaf", 2), k |-> <<>>, o |-> 0, id |-> "",
-                                               unique |-> FALSE, detached |-> FALSE], d)
-              IN [S |-> r.S, new |-> IF r.err = "" THEN newname ELSE None, err |-> r.err, partial |-> r.partial]
+    ELSE IF rule = "bump"
+         THEN LET r == Replace(S, x, [bad |-> FALSE, p |-> [S.obj[x].p EXCEPT !["a"] = (atom + 1) % 3], k |-> S.obj[x].k], Tmp(ctr))
+              IN [S |-> r.S, new |-> IF r.err = "" THEN Tmp(ctr) ELSE None, err |-> r.err, partial |-> r.partial]
+         ELSE LET r == Construct(S, Tmp(ctr), [c |-> "LLeaf", p |-> DefaultProps("LLeaf", 2), k |-> <<>>, o |-> 0, id |-> "",
+                                                unique |-> FALSE, detached |-> FALSE], d)
+              IN [S |-> r.S, new |-> IF r.err = "" THEN Tmp(ctr) ELSE None, err |-> r.err, partial |-> r.partial]
 
 RECURSIVE ExecFrom(_, _, _, _, _, _, _, _)
-ExecFrom(S, root, order, j, rule, atom, nm, d) ==      \* result [S, err, partial, ret]
+ExecFrom(S, root, order, j, rule, atom, ctr, d) ==      \* result [S, err, partial, ret]
     IF j > Len(order) THEN [S |-> S, err |-> "", partial |-> FALSE, ret |-> root]
     ELSE LET x == order[j]
-             a == Act(S, root, x, rule, atom, nm, d)
+             a == Act(S, x, rule, atom, ctr, d)
          IN IF a.err # "" THEN [S |-> a.S, err |-> a.err, partial |-> TRUE, ret |-> None]     \* the rule's own call failed (not wrapped)
             ELSE IF x = root THEN [S |-> a.S, err |-> "", partial |-> FALSE, ret |-> a.new]     \* the root's result is only returned
-            ELSE IF a.new = x THEN ExecFrom(a.S, root, order, j + 1, rule, atom, nm, d)
+            ELSE IF a.new = x THEN ExecFrom(a.S, root, order, j + 1, rule, atom, ctr + 1, d)
             ELSE IF a.new = None \/ a.S.obj[a.new].id # a.S.obj[x].id
                  THEN LET r == ReplaceWith(a.S, x, a.new) IN
                       IF r.err # "" THEN [S |-> r.S, err |-> "ASTTransformError", partial |-> TRUE, ret |-> None]
-                      ELSE ExecFrom(r.S, root, order, j + 1, rule, atom, nm, d)
-                 ELSE ExecFrom(a.S, root, order, j + 1, rule, atom, nm, d)
+                      ELSE ExecFrom(r.S, root, order, j + 1, rule, atom, ctr + 1, d)
+                 ELSE ExecFrom(a.S, root, order, j + 1, rule, atom, ctr + 1, d)
+
+(* -------- ASTTransformVisitor.transform -------- *)
+(* transform(x): an attached x is first cloned (duplicate, detached) and the clone is visited; the visit of a
+   leaf-like node is the user's rule, of any other node generic_visit: transform every child (recursively, so an
+   attached child of a detached node is cloned and replaced on its own), and if any result is another object (or
+   None), node.replace(changed fields).  Finally the attached original is replace_with-ed by the result.  Any exception
+   on the way surfaces as ASTTransformError.  Nodes made on the way are called t<n>...; the ones that survive are
+   renamed after their position below the returned node at the end (RenameBelow). *)
+(* results: [S, res (a name or None), err, ctr] *)
+RECURSIVE Transform(_, _, _, _, _, _), VisitKids(_, _, _, _, _, _, _, _, _, _)
+VisitNode(S, x, rule, atom, d, ctr) ==
+    IF S.obj[x].c \in LeafLikeC
+    THEN (IF ~Selected(S, x, atom) \/ rule = "keep" THEN [S |-> S, res |-> x, err |-> "", ctr |-> ctr]
+          ELSE IF rule = "drop" THEN [S |-> S, res |-> None, err |-> "", ctr |-> ctr]
+          ELSE IF rule = "boom" THEN [S |-> S, res |-> None, err |-> "UserBoom", ctr |-> ctr]
+          ELSE IF rule = "bump"
+               THEN LET r == Replace(S, x, [bad |-> FALSE, p |-> [S.obj[x].p EXCEPT !["a"] = (atom + 1) % 3], k |-> S.obj[x].k], Tmp(ctr))
+                    IN [S |-> r.S, res |-> IF r.err = "" THEN Tmp(ctr) ELSE None, err |-> r.err, ctr |-> ctr + 1]
+               ELSE LET r == Construct(S, Tmp(ctr), [c |-> "LLeaf", p |-> DefaultProps("LLeaf", 2), k |-> <<>>, o |-> 0, id |-> "",
+                                                      unique |-> FALSE, detached |-> FALSE], d)
+                    IN [S |-> r.S, res |-> IF r.err = "" THEN Tmp(ctr) ELSE None, err |-> r.err, ctr |-> ctr + 1])
+    ELSE LET ks == KidsOf(S, x)
+             v == VisitKids(S, x, ks, 1, [f \in DOMAIN S.obj[x].k |-> IF IsSeqKind(Kind[S.obj[x].c][f]) THEN <<>> ELSE None],
+                            {}, rule, atom, d, ctr)
+         IN IF v.err # "" THEN [S |-> v.S, res |-> None, err |-> v.err, ctr |-> v.ctr]
+            ELSE IF v.changed = {} THEN [S |-> v.S, res |-> x, err |-> "", ctr |-> v.ctr]
+            ELSE LET newk == [f \in DOMAIN v.S.obj[x].k |-> IF f \in v.changed THEN v.acc[f] ELSE v.S.obj[x].k[f]]
+                     r == Replace(v.S, x, [bad |-> FALSE, p |-> v.S.obj[x].p, k |-> newk], Tmp(v.ctr))
+                 IN [S |-> r.S, res |-> IF r.err = "" THEN Tmp(v.ctr) ELSE None, err |-> r.err, ctr |-> v.ctr + 1]
+(* fold over the children (taken before the first child is transformed): acc collects the new field values *)
+VisitKids(S, x, ks, j, acc, changed, rule, atom, d, ctr) ==
+    IF j > Len(ks) THEN [S |-> S, acc |-> acc, changed |-> changed, err |-> "", ctr |-> ctr]
+    ELSE LET kd == ks[j]
+             tr == Transform(S, kd.n, rule, atom, d, ctr)
+             seq == kd.i # 0 - 1
+         IN IF tr.err # "" THEN [S |-> tr.S, acc |-> acc, changed |-> changed, err |-> tr.err, ctr |-> tr.ctr]
+            ELSE VisitKids(tr.S, x, ks, j + 1,
+                           [acc EXCEPT ![kd.f] = IF seq THEN (IF tr.res = None THEN @ ELSE Append(@, tr.res)) ELSE tr.res],
+                           IF tr.res # kd.n THEN changed \cup {kd.f} ELSE changed, rule, atom, d, tr.ctr)
+Transform(S, x, rule, atom, d, ctr) ==
+    LET att == ~Detached(S, x)
+        dup == IF att THEN Duplicate(S, x, TRUE, Tmp(ctr)) ELSE [S |-> S, err |-> ""]
+    IN IF dup.err # "" THEN [S |-> dup.S, res |-> None, err |-> dup.err, ctr |-> ctr + 1]          \* raised outside the try
+       ELSE LET node == IF att THEN Tmp(ctr) ELSE x
+                v == VisitNode(dup.S, node, rule, atom, d, ctr + 1)
+            IN IF v.err # "" THEN [S |-> v.S, res |-> None, err |-> "ASTTransformError", ctr |-> v.ctr]
+               ELSE IF ~att THEN v
+               ELSE LET r == ReplaceWith(v.S, x, v.res) IN
+                    IF r.err # "" THEN [S |-> r.S, res |-> None, err |-> "ASTTransformError", ctr |-> v.ctr]
+                    ELSE [S |-> r.S, res |-> v.res, err |-> "", ctr |-> v.ctr]
+
+RenameBelow(S, old, ret, nm) ==       \* new nodes below the returned node take their path names; other new nodes are garbage
+    LET made == Names(S) \ old
+        held == UNION {Reach(S.obj, y) : y \in old \cup (IF ret = None THEN {} ELSE {ret})}
+        T == DropObjs(S, made \ held)
+        keep == Names(T) \ old
+        path(x) == IF ret = None THEN x ELSE LET q == FindPath(T, ret, nm, x, Fuel(T)) IN IF q = "" THEN x ELSE q
+        r(x) == IF x \in keep THEN path(x) ELSE x
+        rk(c, f, v) == IF IsSeqKind(Kind[c][f]) THEN [j \in 1..Len(v) |-> r(v[j])] ELSE IF v = None THEN None ELSE r(v)
+    IN [obj |-> [y \in {r(x) : x \in Names(T)} |->
+                   LET x == CHOOSE z \in Names(T) : r(z) = y
+                       rec == T.obj[x]
+                   IN [rec EXCEPT !.k = [f \in DOMAIN rec.k |-> rk(rec.c, f, rec.k[f])]]],
+        reg |-> [i \in DOMAIN T.reg |-> r(T.reg[i])]]
+
+Tvisit(S, n, rule, atom, nm, d) ==
+    LET tr == Transform(S, n, rule, atom, d, 1)
+        T == RenameBelow(tr.S, Names(S), tr.res, nm) IN
+    [S |-> T, err |-> tr.err, partial |-> tr.err # "" /\ T # S]
 
 Texec(S, n, rule, atom, nm, d) ==
-    LET r == ExecFrom(S, n, PostOrder(S, n, Fuel(S)), 1, rule, atom, nm, d)
-        made == {x \in Names(r.S) : x \notin Names(S)}
-        (* nodes built on the way that nothing holds any more are garbage (the registry is weak) *)
-        held == UNION {Reach(r.S.obj, y) : y \in Names(S) \cup (IF r.ret = None THEN {} ELSE {r.ret})}
-    IN [S |-> DropObjs(r.S, made \ held), err |-> r.err, partial |-> r.partial]
+    LET r == ExecFrom(S, n, PostOrder(S, n, Fuel(S)), 1, rule, atom, 1, d)
+    IN [S |-> RenameBelow(r.S, Names(S), r.ret, nm), err |-> r.err, partial |-> r.partial]
 
 Ok(S) == [S |-> S, err |-> "", partial |-> FALSE]
 Apply(S, op, nm, d) ==
@@ -347,6 +414,7 @@ Apply(S, op, nm, d) ==
       [] op.op = "replace_with_none" -> ReplaceWith(S, a, None)
       [] op.op = "duplicate" -> DuplicateOp(S, a, op.mode = "detached", nm)
       [] op.op = "texec" -> Texec(S, a, op.mode, op.atom, nm, d)
+      [] op.op = "tvisit" -> Tvisit(S, a, op.mode, op.atom, nm, d)
 
 (* the error a rejected operation surfaces with *)
 Outcome(r) == IF r.err = "" THEN "ok" ELSE r.err
